@@ -51,7 +51,8 @@ ST = "aioesphomeapi.connection.ConnectionState"
 # Inv_conn : (name, expression over self/ghost, property tags)
 # ------------------------------------------------------------------------------------------------------------
 INV = [
-    ("I1-connected-flag", f"iff(self.is_connected, {S} is CS.CONNECTED)", ["C05"]),
+    # (C07 too: the stop callback is gated on this flag - a flag that no longer means "reached CONNECTED" silences or duplicates it)
+    ("I1-connected-flag", f"iff(self.is_connected, {S} is CS.CONNECTED)", ["C05", "C07"]),
     ("I1-handshake-flag", f"iff(self._handshake_complete, {S} is CS.HANDSHAKE_COMPLETE or {S} is CS.CONNECTED)", ["C05"]),
     ("I2-closed-released", f"implies({S} is CS.CLOSED, self._ping_timer is None and self._pong_timer is None)", ["C08"]),
     ("I2-closed-releases-waiters", f"implies({S} is CS.CLOSED, set_empty(self._read_exception_futures) "
@@ -452,6 +453,8 @@ def install(eng, check_tags=None):
             return VTuple([VTuple([VTuple([i, m]) for i, m in ev[1]]) for ev in st.events if ev[0] == "write"])
         if name == "n_writes":
             return VInt(sum(1 for ev in st.events if ev[0] == "write"))
+        if name == "opened_socket":
+            return VBool(any(ev[0] == "new_socket" for ev in st.events))
         if name == "decode_failed":
             return VBool(any(ev[0] == "decode_failed" for ev in st.events))
         if name == "write_before_close":
@@ -848,6 +851,13 @@ def install(eng, check_tags=None):
             return None
         k = class_key(eng_, st, idx)
         vo = st.heap[v.oid]
+        if vo.kind == "hview":
+            # the very set object that already serves another message type (or this one) is stored again: the two types would
+            # share their subscribers from now on (C12: delivered to the subscribers registered *for that type*)
+            tags = getattr(eng_, "conn_check_tags", None)
+            mine = [t for t in ["C12"] if tags is None or t in tags]
+            oblige(eng_, st, z3.BoolVal(False), "a-handler-set-belongs-to-one-message-type", kind="property" if mine else "auxiliary", tags=mine or None)
+            vo = HObj("sset", None, {"e": z3.Select(st.heap[vo.f["map"]].f["sets"], vo.f["key"]), "kind": "Callback"})
         if vo.kind == "cset":
             e = z3.EmptySet(ObjS)
             for x in vo.f["items"]:
@@ -865,6 +875,8 @@ def install(eng, check_tags=None):
                     raise Unsupported("handler-table slot replaced while a view of a possibly equal key is live")
         o.f["has"] = z3.Store(o.f["has"], k, z3.BoolVal(True))
         o.f["sets"] = z3.Store(o.f["sets"], k, e)
+        # from now on the stored object *is* that slot of the table: later operations through any other reference to it act on the slot
+        st.heap[v.oid] = HObj("hview", None, {"map": base.oid, "key": k})
         return ok(st, None)
     eng.hooks["setitem"] = h_setitem
 
